@@ -1201,19 +1201,42 @@ func (x *Exec) viewPointer(e *ast.CallExpr, pt *types.Pointer, st *State) (Value
 	if !ok {
 		return nil, false
 	}
-	at, ok := x.info.TypeOf(ix.X).Underlying().(*types.Array)
-	if !ok {
-		return nil, false
-	}
 	stt, ok := pt.Elem().Underlying().(*types.Struct)
 	if !ok {
 		return nil, false
 	}
 	is := x.idxSort()
-	arr := x.expr(ix.X, st).(Term)
-	i := x.indexTerm(ix.Index, st)
-	n := x.constOfSort(at.Len(), is)
-	x.boundsCheck(st, i, n, x.info.TypeOf(ix.Index), ix.Pos())
+	var arr, i, n Term
+	switch ct := x.info.TypeOf(ix.X).Underlying().(type) {
+	case *types.Array:
+		a, isTerm := x.expr(ix.X, st).(Term)
+		if !isTerm {
+			return nil, false
+		}
+		arr = a
+		i = x.indexTerm(ix.Index, st)
+		n = x.constOfSort(ct.Len(), is)
+		x.boundsCheck(st, i, n, x.info.TypeOf(ix.Index), ix.Pos())
+	case *types.Slice:
+		// a view into the array behind a byte slice: positions are relative to the slice's offset
+		sl, isSl := x.expr(ix.X, st).(*StructV)
+		if !isSl || !isSlice(sl) {
+			return nil, false
+		}
+		a, isTerm := sl.get("$arr").(Term)
+		if !isTerm {
+			return nil, false
+		}
+		arr = a
+		rel := x.indexTerm(ix.Index, st)
+		ln := sl.get("$len").(Term)
+		x.boundsCheck(st, rel, ln, x.info.TypeOf(ix.Index), ix.Pos())
+		off := sl.get("$off").(Term)
+		i = x.addIdx(off, rel)
+		n = x.addIdx(off, ln)
+	default:
+		return nil, false
+	}
 	// lay out fields little-endian
 	sizes := types.SizesFor("gc", "amd64")
 	offs := sizes.Offsetsof(fieldsOf(stt))
